@@ -8,7 +8,7 @@ from ..outcome import fail, passed, exc_bucket
 
 ID = 'C18'
 LEVEL = 'exploration'
-CASES = {'quick': 6000, 'thorough': 120000}
+CASES = {'quick': 6000, 'thorough': 40000}
 CASE_TIMEOUT = 60
 RULE = ('Generated part: a multigraph of 1-8 nodes (thorough 1-10; junctions with demand >= 0, reservoirs, tanks) and '
         '0-10 links (thorough 0-14; pipes with length, pumps, valves; no self loops; parallel links in both '
